@@ -6,7 +6,7 @@ import ast
 import z3
 
 from . import smt
-from .contract import (Arr, Arr2, Bool, Chunks, Const, Contract, Int, Obj, Opaque, Opt, Raw, Real, RecArr, Str)
+from .contract import (Arr, Arr2, Bool, Chunks, Const, Contract, Int, Obj, Opaque, Opt, Raw, Real, RecArr, Str, Tup)
 from .source import ContractMismatch, OutOfSubset, _strip_doc
 from .state import NORMAL, Outcome, State
 from .values import *  # noqa: F403
@@ -810,6 +810,8 @@ class CallMixin:
                 return v
         if isinstance(t, Opaque):
             return VOpaque(name)
+        if isinstance(t, Tup):
+            return VTuple([self.mk_param(f"{name}.{i}", it, st) for i, it in enumerate(t.items)])
         if isinstance(t, Opt):
             raise OutOfSubset(f"Opt parameter {name} must be resolved by a case split")
         raise OutOfSubset(f"parameter type {t!r}")
